@@ -214,4 +214,128 @@ def internalFlash (P : Peer σ) (L : Link σ) (g : Geom) (image : List UInt8) (o
         | (L2, .ok ()) => (L2, .done)
       else (L1, .done)
 
+/-! ### the `Cloader` object: link + geometry cache (`self.targets`), `_update_info`, `request_info_update`,
+`check_link_and_get_info`; `_internal_flash` reads the geometry from the cache of the loader it is called on -/
+
+/-- State of one `Cloader` object.  `targets` is the dict `self.targets` (an INSTANCE attribute created in
+`__init__`: see the Gen obligation `gen_loader_state`), as an association list, newest binding first. -/
+structure Loader (σ : Type) where
+  link : Option (Link σ)
+  targets : List (Nat × Geom)
+  protocolVersion : Nat
+
+/-- `Cloader.__init__` -/
+def Loader.new : Loader σ := { link := none, targets := [], protocolVersion := 0xFF }
+
+/-- `open_bootloader_uri`: the old link (if any) is closed, `self.link` is a new driver; nothing else changes -/
+def Loader.openLink (ld : Loader σ) (L : Link σ) : Loader σ := { ld with link := some L }
+
+def lookupT (ts : List (Nat × Geom)) (tid : Nat) : Option Geom :=
+  match ts with
+  | [] => none
+  | (k, g) :: r => if k = tid then some g else lookupT r tid
+
+/-- the reply test of `_update_info` / `_update_mapping`: header and `struct.unpack('<BB', data[0:2]) == (tid, cmd)` -/
+def replyIs (tid cmd : Nat) (a : Pkt) : Except PyErr Bool :=
+  if a.hdr ≠ Gen.C12.replyHeader then .ok false
+  else match unpack (parseFmt! Gen.C12.infoMatchFmt) (a.data.take 2) with
+    | .ok vs => .ok (decide (vs = [Val.int tid, Val.int cmd]))
+    | .error e => .error e
+
+/-- the receive loop of `_update_info`; `elapsed` = virtual seconds since `ts` (time passes only while a receive
+times out); `none` = the step bound `fuel` of this model was exceeded (the loop is still running). -/
+def infoLoop (P : Peer σ) (tid : Nat) (req : Pkt) :
+    Nat → Nat → Link σ → Link σ × Option (Except PyErr (Option Pkt))
+  | 0, _, L => (L, none)
+  | fuel + 1, elapsed, L =>
+    if ¬ elapsed < Gen.C12.infoTimeout then (L, some (.ok none))           -- return False
+    else
+      let r := L.wait P                                                    -- receive_packet(2)
+      match r.2 with
+      | none => infoLoop P tid req fuel (elapsed + Gen.C12.infoRecvWait) (r.1.send P req)   -- resend
+      | some a =>
+        match replyIs tid Gen.C12.infoCmd a with
+        | .error e => (r.1, some (.error e))
+        | .ok true => (r.1, some (.ok (some a)))
+        | .ok false => infoLoop P tid req fuel elapsed r.1
+
+/-- `tab = struct.unpack('BBHHHH', data[0:10])`, `struct.unpack('B' * 12, data[10:22])`, the protocol byte -/
+def parseInfo (tid : Nat) (a : Pkt) : Except PyErr (Geom × Option Nat) :=
+  match unpack (parseFmt! Gen.C12.infoFmt) (pySlice a.data 0 10) with
+  | .error e => .error e
+  | .ok tab =>
+    if (pySlice a.data 10 22).length ≠ 12 then .error .structError         -- 'B' * 12
+    else match tab with
+      | [_, _, .int ps, .int bp, .int fp, .int sp] =>
+        .ok ({ addr := tid, pageSize := ps.toNat, bufferPages := bp.toNat, flashPages := fp.toNat,
+               startPage := sp.toNat }, if a.data.length > 22 then (a.data[22]?).map UInt8.toNat else none)
+      | _ => .error .valueError
+
+/-- `_update_mapping`: one request, one blocking receive; only a malformed mapping raises -/
+def updateMapping (P : Peer σ) (L : Link σ) (tid : Nat) : Link σ × Except PyErr Unit :=
+  let L1 := L.send P ⟨bootHdr, [UInt8.ofNat tid, UInt8.ofNat Gen.C12.mappingCmd]⟩
+  let r := L1.wait P
+  match r.2 with
+  | none => (r.1, .ok ())
+  | some a =>
+    if a.hdr ≠ Gen.C12.replyHeader ∨ a.data.length < 2 then (r.1, .ok ())
+    else match replyIs tid Gen.C12.mappingCmd a with
+      | .error e => (r.1, .error e)
+      | .ok false => (r.1, .ok ())
+      | .ok true => if (a.data.length - 2) % 2 ≠ 0 then (r.1, .error .other) else (r.1, .ok ())
+
+/-- `Cloader._update_info(target_id)` (`target_id` a byte).  Result: `none` = model step bound exceeded. -/
+def updateInfo (P : Peer σ) (fuel : Nat) (ld : Loader σ) (tid : Nat) : Loader σ × Option (Except PyErr Bool) :=
+  match ld.link with
+  | none => (ld, some (.error .attributeError))                             -- self.link is None
+  | some L =>
+    let req : Pkt := ⟨bootHdr, [UInt8.ofNat tid, UInt8.ofNat Gen.C12.infoCmd]⟩
+    match infoLoop P tid req fuel 0 (L.send P req) with
+    | (L1, none) => ({ ld with link := some L1 }, none)
+    | (L1, some (.error e)) => ({ ld with link := some L1 }, some (.error e))
+    | (L1, some (.ok none)) => ({ ld with link := some L1 }, some (.ok false))
+    | (L1, some (.ok (some a))) =>
+      match parseInfo tid a with
+      | .error e => ({ ld with link := some L1 }, some (.error e))
+      | .ok (g, proto) =>
+        let pv := match proto with | some v => v | none => ld.protocolVersion
+        let ld1 : Loader σ := { link := some L1, targets := (tid, g) :: ld.targets, protocolVersion := pv }
+        if pv = Gen.C12.protoCF2 ∧ tid = Gen.C12.targetSTM32 then
+          match updateMapping P L1 tid with
+          | (L2, .error e) => ({ ld1 with link := some L2 }, some (.error e))
+          | (L2, .ok ()) => ({ ld1 with link := some L2 }, some (.ok true))
+        else (ld1, some (.ok true))
+
+/-- `request_info_update(target_id)`: queries only when the id is not cached; `KeyError` if it still is not -/
+def requestInfoUpdate (P : Peer σ) (fuel : Nat) (ld : Loader σ) (tid : Nat) :
+    Loader σ × Option (Except PyErr Geom) :=
+  match lookupT ld.targets tid with
+  | some g => (ld, some (.ok g))
+  | none =>
+    match updateInfo P fuel ld tid with
+    | (ld1, none) => (ld1, none)
+    | (ld1, some (.error e)) => (ld1, some (.error e))
+    | (ld1, some (.ok _)) =>
+      match lookupT ld1.targets tid with
+      | some g => (ld1, some (.ok g))
+      | none => (ld1, some (.error .keyError))
+
+/-- `Bootloader._internal_flash` on the loader: `self._cload.targets[<key>]` (KeyError), `self.link` (AttributeError) -/
+def flashOn (P : Peer σ) (ld : Loader σ) (key : Nat) (image : List UInt8) (override : Option Int)
+    (term : List Bool) : Loader σ × Res :=
+  match lookupT ld.targets key with
+  | none => (ld, .exc .keyError)
+  | some g =>
+    match ld.link with
+    | none =>
+      -- nothing is transmitted before the first use of the link; the checks before it still apply
+      if image.length = 0 then (ld, .exc .zeroDiv)
+      else if Gen.C12.guardRefuses image.length g.flashPages (effStart g override) g.pageSize then (ld, .notEnoughSpace)
+      else if g.pageSize = 0 then (ld, .exc .zeroDiv)
+      else if term.headD false then (ld, .terminated)
+      else (ld, .exc .attributeError)
+    | some L =>
+      let r := internalFlash P L g image override term
+      ({ ld with link := some r.1 }, r.2)
+
 end CfVerif.C12
